@@ -200,6 +200,7 @@ func registerRT(e *Engine) {
 				if gp, ok := r.(goPanic); ok {
 					p.depth, p.curFn = depth, p.curFn[:nfn]
 					p.lastPanic = gp.Msg
+					p.crashSite = ""
 					res = VBool{tTrue}
 					return
 				}
